@@ -2,10 +2,12 @@ from . import astronomy, functions, image_processing, wfs, turbulence, opticalpr
 
 from .astronomy import *
 from .functions import *
-from .fouriertransform import *
 from .interpolation import *
 from .turbulence import *
 from .image_processing import *
+# imported last: turbulence.phasescreen defines its own ift2 helper, which must not shadow
+# the package-level inverse of ft2
+from .fouriertransform import *
 
 from ._version import get_versions
 __version__ = get_versions()['version']
